@@ -151,9 +151,13 @@ def run_cases_v(pid, name, prelude, terms, shard=400, timeout=600, case_type=Non
         fn = os.path.join(d, '%s_%03d.v' % (name, k))
         with open(fn, 'w') as f:
             f.write(prelude + '\n')
-            f.write('Definition cases%s := [\n' % (' : list ' + case_type if case_type else '') + ';\n'.join(sh_terms) + '].\n')
-            f.write('Definition codes := List.map check cases.\n')
-            f.write('Eval vm_compute in (List.length cases, codes).\n')
+            # the list is elaborated against the argument type of `check`, so empty sub-lists in the cases need no annotation
+            if case_type:
+                f.write('Definition cases : list %s := [\n' % case_type + ';\n'.join(sh_terms) + '].\n')
+                f.write('Definition codes := List.map check cases.\n')
+            else:
+                f.write('Definition codes := List.map check [\n' + ';\n'.join(sh_terms) + '].\n')
+            f.write('Eval vm_compute in (List.length codes, codes).\n')
         files.append(fn)
 
     def one(fn):
